@@ -182,6 +182,9 @@ func genText(r *Run, a *alphabet, maxLen int, bad bool) []rune {
 		if len(pool) == 0 {
 			pool = a.ascii
 		}
+		if len(pool) == 0 {
+			pool = []rune{'a'}
+		}
 		x := pool[r.Rng.Intn(len(pool))]
 		if x == 0x1b { // ESC: RFC 1468 reserves it; out of the property's scope for ISO-2022-JP, harmless elsewhere
 			x = 0x0a
@@ -305,7 +308,7 @@ func corrC17(r *Run) {
 	}
 	// ---- 4. texts: encode / decode on the implementation and on the model
 	aliases := aliasesOf()
-	perCoding := r.N(110, 1500)
+	perCoding := r.N(70, 1000)
 	for _, cs := range charsetList {
 		a := alph[cs.dc]
 		for i := 0; i < perCoding; i++ {
@@ -345,13 +348,13 @@ func corrC17(r *Run) {
 		}
 	}
 	// ---- 5. decoders on random sequences of valid codes (not only encoder images)
-	nSeq := r.N(40, 600)
+	nSeq := r.N(25, 400)
 	for _, cs := range charsetList {
 		if cs.kind != 1 {
 			continue
 		}
 		codes := validCodes(cs.dc)
-		for i := 0; i < nSeq; i++ {
+		for i := 0; i < nSeq && len(codes) > 0; i++ {
 			var b []byte
 			for k, n := 0, r.Rng.Intn(24); k < n; k++ {
 				b = append(b, codes[r.Rng.Intn(len(codes))]...)
